@@ -22,9 +22,12 @@ import (
 	"os"
 	"reflect"
 	"regexp"
+	"runtime"
 	"sort"
 	"strconv"
 	"strings"
+	"sync"
+	"sync/atomic"
 	"time"
 
 	frugal "github.com/Workiva/frugal/lib/go"
@@ -43,7 +46,16 @@ type c16Ev struct {
 	mname string // reflect.Method.Name seen (enter)
 }
 
-type c16Rec struct{ evs []c16Ev }
+type c16Rec struct {
+	mu  sync.Mutex
+	evs []c16Ev
+}
+
+func (r *c16Rec) add(e c16Ev) {
+	r.mu.Lock()
+	r.evs = append(r.evs, e)
+	r.mu.Unlock()
+}
 
 func c16ErrStr(e error) string {
 	if e == nil {
@@ -86,7 +98,7 @@ func c16MW(rec *c16Rec, label int, spec string, inPlace bool) frugal.ServiceMidd
 	return func(next frugal.InvocationHandler) frugal.InvocationHandler {
 		return func(service reflect.Value, method reflect.Method, args frugal.Arguments) frugal.Results {
 			a := args[1].(string)
-			rec.evs = append(rec.evs, c16Ev{kind: 'e', label: label, arg: a, cid: args.Context().CorrelationID(), mname: method.Name})
+			rec.add(c16Ev{kind: 'e', label: label, arg: a, cid: args.Context().CorrelationID(), mname: method.Name})
 			na := c16Pre(label, spec, a)
 			if na != a {
 				if inPlace {
@@ -98,7 +110,7 @@ func c16MW(rec *c16Rec, label int, spec string, inPlace bool) frugal.ServiceMidd
 			results := next(service, method, args)
 			res := results[0].(string)
 			es := c16ErrStr(results.Error())
-			rec.evs = append(rec.evs, c16Ev{kind: 'x', label: label, res: res, err: es})
+			rec.add(c16Ev{kind: 'x', label: label, res: res, err: es})
 			nres, nerr := c16Post(label, spec, res, es)
 			if nres != res || nerr != es {
 				if !inPlace {
@@ -138,14 +150,18 @@ func c16Render(evs []c16Ev, res, err string) string {
 // ---------- the proxied handler ----------
 
 type c16Handler struct {
-	rec  *c16Rec
-	fail bool
-	mark string // appended after "|" so different functions are distinguishable
+	rec   *c16Rec
+	fail  bool
+	mark  string // appended after "|" so different functions are distinguishable
+	yield bool
 }
 
 func (h *c16Handler) Handle(ctx frugal.FContext, s string) (string, error) { return h.handle(ctx, s) }
 func (h *c16Handler) handle(ctx frugal.FContext, s string) (string, error) {
-	h.rec.evs = append(h.rec.evs, c16Ev{kind: 'b', arg: s, cid: ctx.CorrelationID()})
+	h.rec.add(c16Ev{kind: 'b', arg: s, cid: ctx.CorrelationID()})
+	if h.yield {
+		runtime.Gosched() // concurrent mode: let the other callers in
+	}
 	if h.fail {
 		return s + "|" + h.mark, errors.New("B")
 	}
@@ -669,6 +685,129 @@ func realMWP(args []string) (string, bool) {
 	return "ok " + strings.Join(outs, " "), fine
 }
 
+// ---------- op mwc: concurrent invocations of ONE Method ----------
+
+// c16Key: the call an observed value belongs to — every call's argument is
+// "<prefix>g<g>n<k>." and rewrites only append, so the key is the text up to the first '.'.
+func c16Key(s string) string {
+	if i := strings.IndexByte(s, '.'); i >= 0 {
+		return s[:i+1]
+	}
+	return "?" + s
+}
+
+type c16ConcCall struct {
+	arg, cid, res, err string
+}
+
+// mwc <G> <K> <R> <specs> <base> <prefix>
+// R rounds of: G goroutines x K calls each on one frugal.Method, released together
+// by a barrier before every Invoke; every call has its own argument and FContext.
+// Output: `ok calls=N uniform <trace with the call's argument written @>` when every
+// call's own trace is the same up to its argument (the model's trace for "@").
+// Oracle (per call, from what the middleware/handler recorded under that call's
+// key): c16Oracle — entered once each, nesting, base saw the composed rewrite of
+// THAT call's argument with that call's FContext, caller got the result computed
+// from its own argument; and nothing was recorded under a key that is no call's.
+func realMWC(args []string) (string, bool) {
+	if len(args) != 6 {
+		return "bad-op", true
+	}
+	G, _ := strconv.Atoi(args[0])
+	K, _ := strconv.Atoi(args[1])
+	R, _ := strconv.Atoi(args[2])
+	specs, base, prefix := c16Specs(args[3]), args[4], args[5]
+	if G < 1 || G > 16 || K < 1 || K > 1000 || R < 1 || R > 100 || strings.ContainsAny(prefix, ".@") {
+		return "bad-op", true
+	}
+	uniform, why := "", ""
+	mixed := false
+	o := c16Guard(func() {
+		for round := 0; round < R && why == ""; round++ {
+			rec := &c16Rec{}
+			h := &c16Handler{rec: rec, fail: base == "f", yield: true}
+			list, decl := c16Build(rec, 0, specs, c16Extra, c16Style)
+			m := frugal.NewMethod(h, h.handle, "handle", list)
+			calls := make([][]c16ConcCall, G)
+			var arrived, abort int32
+			var wg sync.WaitGroup
+			panics := make([]string, G)
+			for g := 0; g < G; g++ {
+				wg.Add(1)
+				go func(g int) {
+					defer wg.Done()
+					defer func() {
+						if r := recover(); r != nil {
+							panics[g] = fmt.Sprint(r)
+							atomic.StoreInt32(&abort, 1)
+						}
+					}()
+					for k := 0; k < K; k++ {
+						arg := fmt.Sprintf("%sg%dn%d.", prefix, g, k)
+						ctx := frugal.NewFContext("")
+						// barrier: all G callers enter Invoke together
+						atomic.AddInt32(&arrived, 1)
+						for atomic.LoadInt32(&arrived) < int32((k+1)*G) && atomic.LoadInt32(&abort) == 0 {
+							runtime.Gosched()
+						}
+						r := m.Invoke(frugal.Arguments{ctx, arg})
+						calls[g] = append(calls[g], c16ConcCall{arg, ctx.CorrelationID(), r[0].(string), c16ErrStr(r.Error())})
+					}
+				}(g)
+			}
+			wg.Wait()
+			for g, p := range panics {
+				if p != "" {
+					why = fmt.Sprintf("goroutine %d panicked: %s", g, p)
+					return
+				}
+			}
+			byKey := map[string][]c16Ev{}
+			for _, e := range rec.evs {
+				k := c16Key(e.arg)
+				if e.kind == 'x' {
+					k = c16Key(e.res)
+				}
+				byKey[k] = append(byKey[k], e)
+			}
+			known := map[string]bool{}
+			for g := 0; g < G; g++ {
+				for _, c := range calls[g] {
+					known[c.arg] = true
+					t := strings.ReplaceAll(c16Render(byKey[c.arg], c.res, c.err), c.arg, "@")
+					if uniform == "" {
+						uniform = t
+					} else if t != uniform {
+						mixed = true
+					}
+					if w := c16Oracle(decl, byKey[c.arg], c.arg, c.cid, "handle", c.res, c.err); w != "" && why == "" {
+						why = "call " + c.arg + ": " + w
+					}
+				}
+			}
+			for k := range byKey {
+				if !known[k] && why == "" {
+					why = "something was observed that belongs to no call: " + k
+				}
+			}
+		}
+	})
+	if o != "" {
+		return o, false
+	}
+	out := fmt.Sprintf("ok calls=%d ", G*K*R)
+	if mixed {
+		out += "mixed "
+	} else {
+		out += "uniform "
+	}
+	out += uniform
+	if why != "" {
+		return out + " !" + strings.ReplaceAll(why, " ", "_"), false
+	}
+	return out, true
+}
+
 // ---------- static tie to the generator: how NewMethod( emissions get their list ----------
 
 const c16GeneratorPath = "/repo/compiler/generator/golang/generator.go"
@@ -990,7 +1129,15 @@ func runC16(r *Rng, n int) {
 			base = "f"
 		}
 		arg := c16GenArg(r)
-		switch k := r.Intn(10); {
+		switch k := r.Intn(11); {
+		case k == 10:
+			G, K := 2+r.Intn(7), r.Pick(1, 5, 20, 40)
+			specs := c16GenSpecs(r, 3)
+			Stat(fmt.Sprintf("mwc:G=%d", G))
+			Stat(fmt.Sprintf("mwc:K=%d", K))
+			Stat(fmt.Sprintf("mwc:len=%d", len(specs)))
+			StatN("mwc:calls", G*K*2)
+			c16Emit("mwc", []string{strconv.Itoa(G), strconv.Itoa(K), "2", c16SpecsArg(specs), base, c16GenArg(r)}, realMWC)
 		case k < 4:
 			specs, added := c16GenSpecs(r, 6), c16GenSpecs(r, 3)
 			name := "handle"
@@ -1056,5 +1203,6 @@ func init() {
 	lineOps["mwp"] = realMWP
 	lineOps["mws"] = realMWS
 	lineOps["mwx"] = realMWX
+	lineOps["mwc"] = realMWC
 	lineOps["wiring"] = realWiring
 }
